@@ -25,7 +25,7 @@ PROP = Property(
 )
 
 META = {
-    "text": "Proof (component lemmas, every state and input): view_moves_on_accepted_certificate (a sync info the verifier accepts with certified view >= current view always moves the replica to view+1 — Hoare-logic proof over the replica model's advanceView), timeout_quorum_completes (the message completing a quorum of timeouts of one view makes the collector release exactly that view's messages; with C08's tc_verifies the resulting certificate verifies everywhere), chained_votes_above_lock / simple_votes_at_or_above_lock / fast_votes_next_view (the vote rules accept a well-formed proposal built on a certified block above the lock once the blocks are known), aggregate_rule_ignores_plain_qc (negative: the aggregate timeout rule drops plain QCs). End-to-end, on real replica clusters vs the model cluster, line by line: adversarial prefix (partitions, loss, Byzantine proposals/votes/timeouts, up to f crashed) followed by a synchronous suffix among a quorum of live honest replicas led by members; the oracle demands that every member commits a new block within 3 x chain-length views of the suffix start; fault-free synchronous runs must have no timeout view changes, every view's block certified, and the committed block trailing the highest certified block by exactly chain-length-1. Found and repaired with it: highTC was never remembered, so a replica that missed one timeout quorum stalled the whole system (corpus/clusterlive/01).",
-    "note": "Partial (see 'partial'). KNOWN FINDING: Fast-HotStuff with the aggregate timeout rule never refreshes its high QC from QCs (the existing TestAdvanceView pins that behaviour, so it is recorded, not repaired): it never commits.",
+    "text": "Proof (component lemmas, every state and input): view_moves_on_accepted_certificate (a sync info the verifier accepts with certified view >= current view always moves the replica to view+1 — Hoare-logic proof over the replica model's advanceView), timeout_quorum_completes (the message completing a quorum of timeouts of one view makes the collector release exactly that view's messages; with C08's tc_verifies the resulting certificate verifies everywhere), chained_votes_above_lock / simple_votes_at_or_above_lock / fast_votes_next_view (the vote rules accept a well-formed proposal built on a certified block above the lock once the blocks are known), aggregate_rule_plain_qc (the aggregate timeout rule accepts a verifying plain QC as high-QC candidate with certified view 0: it refreshes the high QC — since fix 4f3d40f — but cannot move the view, which is the remaining known finding). End-to-end, on real replica clusters vs the model cluster, line by line: adversarial prefix (partitions, loss, Byzantine proposals/votes/timeouts, up to f crashed) followed by a synchronous suffix among a quorum of live honest replicas led by members; the oracle demands that every member commits a new block within 3 x chain-length views of the suffix start; fault-free synchronous runs must have no timeout view changes, every view's block certified, and the committed block trailing the highest certified block by exactly chain-length-1. Found and repaired with it: highTC was never remembered, so a replica that missed one timeout quorum stalled the whole system (corpus/clusterlive/01).",
+    "note": "Partial (see 'partial'). KNOWN FINDING: under the aggregate timeout rule (Fast-HotStuff) a QC never ends a view (the existing TestAdvanceView pins that behaviour, so it is recorded, not repaired): synchronous replicas whose timers do not fire make no progress. Repaired on the way: the high QC was never refreshed either (4f3d40f, a safety defect, see C01) and VerifyAnyQC's verdict depended on map iteration order (7d9bd97).",
     "technique": "Lean 4 progress lemmas (Std.Do Hoare logic) + multi-replica differential correspondence with scripted synchrony + liveness oracle",
 }
